@@ -8,6 +8,7 @@
 package main
 
 import (
+	"encoding/json"
 	"flag"
 	"fmt"
 	"os"
@@ -84,9 +85,16 @@ type CtlStep struct {
 	Events []k8s.VEvent       `json:"events"`
 	Writes []k8s.VStatusWrite `json:"writes"`
 	VErr   k8s.VErr           `json:"verr"`
+	Probe  k8s.VProbe         `json:"probe"`
 	Hosts  map[string]string  `json:"hosts"`
 	LHosts map[string]string  `json:"lhosts"`
 	Res    []k8s.VRes         `json:"res"`
+}
+
+// LeaderObs is what the controller writes when it acquires leadership at the end of the history
+type LeaderObs struct {
+	Writes   []k8s.VStatusWrite `json:"writes"`
+	Policies []k8s.VPolicy      `json:"policies"`
 }
 
 type Case struct {
@@ -95,6 +103,7 @@ type Case struct {
 	CertMgr   bool      `json:"cert_manager"`
 	Histories []History `json:"histories"`
 	Ctl       []CtlStep `json:"ctl,omitempty"` // main history through LoadBalancerController.sync (with -ctl)
+	Leader    *LeaderObs `json:"leader,omitempty"`
 	Error     string    `json:"error,omitempty"`
 }
 
@@ -558,8 +567,8 @@ func (g *gen) next() Event {
 		// class flip only
 		s := cur
 		s.ClassAnn, s.ClassField = g.classFor(kind)
-		if kind != "ing" || (s.ClassField == nil) != (cur.ClassField == nil) || (s.ClassField != nil && *s.ClassField != *cur.ClassField) {
-			s.Gen++ // the field is part of the spec
+		if (s.ClassField == nil) != (cur.ClassField == nil) || (s.ClassField != nil && *s.ClassField != *cur.ClassField) {
+			s.Gen++ // the field is part of the spec: the generation moves exactly when it changes
 		}
 		g.live[id] = s
 		return Event{Op: "upsert", Spec: s, Note: "classflip"}
@@ -578,10 +587,21 @@ func (g *gen) next() Event {
 	default:
 		s := cur
 		g.fill(&s)
+		if sameSpec(s, cur) {
+			// the random refill produced the same object: the generation does not move without a spec change
+			return Event{Op: "upsert", Spec: cur, Note: "resync"}
+		}
 		s.Gen++
 		g.live[id] = s
 		return Event{Op: "upsert", Spec: s, Note: "update"}
 	}
+}
+
+func sameSpec(a, b Spec) bool {
+	a.Gen, b.Gen = 0, 0
+	x, _ := json.Marshal(a)
+	y, _ := json.Marshal(b)
+	return string(x) == string(y)
 }
 
 // compositionSeed creates a master with minions that share paths and a VirtualServer with routes that
@@ -852,8 +872,9 @@ func runCtl(c *Case, anns map[string]int) (err error) {
 		if err != nil {
 			return err
 		}
-		c.Ctl = append(c.Ctl, CtlStep{Events: evs, Writes: writes, VErr: verr, Hosts: v.Arb.Hosts(), LHosts: v.Arb.LHosts(), Res: v.Arb.Resources()})
+		c.Ctl = append(c.Ctl, CtlStep{Events: evs, Writes: writes, VErr: verr, Probe: v.LastProbe, Hosts: v.Arb.Hosts(), LHosts: v.Arb.LHosts(), Res: v.Arb.Resources()})
 	}
+	c.Leader = &LeaderObs{Writes: v.Leader(), Policies: k8s.VerifPolicies}
 	return nil
 }
 
